@@ -319,9 +319,18 @@ def gen_case(rng, tier, k):
         name = "f_" + rng.choice("abcd")
         params = ["p"] if rng.random() < 0.7 else []
         body = []
+        lower = [x for x in known(scope, "f_", lang.Fn) if x < name]
         for _ in range(rng.randrange(1, 5)):
             r = rng.random()
-            if r < 0.25:
+            if r < 0.2 and lower:
+                # calls a function with a smaller name (no recursion); that
+                # one may be re-defined later, and the call must follow
+                callee = rng.choice(lower)
+                cf = scope.lookup(callee).vars[callee]
+                body.append(["expr", ["call", callee,
+                                      [rng.randrange(3)] if cf.params
+                                      else []]])
+            elif r < 0.25:
                 body.append(["mark", g.fresh("fm")])
             elif r < 0.4 and params:
                 body.append(["if", ["op", "==", ["v", "p"],
@@ -382,10 +391,43 @@ def gen_case(rng, tier, k):
         return None
 
     last_cmd = None
+    chain = []          # queued (inst, stmts) of a re-definition chain
     for opi in range(nops):
         inst = rng.choice(insts)["name"]
         m = gm[inst]
         env = None
+        if not chain and rng.random() < 0.04:
+            # g is defined, f calls g, f is called, g is re-defined (maybe
+            # by a command that fails afterwards), f is called again: the
+            # later definition must be the one f uses
+            ga, gb = rng.randrange(1, 50), rng.randrange(50, 99)
+            redef = [["deffn", "f_a", ["p"],
+                      [["mark", g.fresh("gm")],
+                       ["ret", ["op", "+", ["v", "p"], gb]]]]]
+            if rng.random() < 0.4:
+                redef.append(gen_fail_stmt())
+            chain = [
+                [["deffn", "f_a", ["p"],
+                  [["ret", ["op", "+", ["v", "p"], ga]]]]],
+                [["deffn", "f_c", ["p"],
+                  [["ret", ["call", "f_a", [["v", "p"]]]]]]],
+                [["expr", ["call", "f_c", [rng.randrange(5)]]]],
+                redef,
+                [["expr", ["call", "f_c", [rng.randrange(5)]]]],
+            ]
+            chain = [(inst, c) for c in chain]
+        if chain:
+            inst, stmts = chain.pop(0)
+            m = gm[inst]
+            op = {"kind": "cmd", "inst": inst, "env": None, "stmts": stmts,
+                  "faults": []}
+            case["ops"].append(op)
+            last_cmd = op
+            try:
+                model_run(m, stmts, m.session, [], persistent)
+            except Unspec:
+                break
+            continue
         if host != "repl" and rng.random() < (0.4 if share_env else 0.15):
             env = rng.choice(["E1", "E2"])
         scope = scope_of(inst, env)
